@@ -6,7 +6,7 @@ import vlib
 
 def run():
     os.makedirs(vlib.BUILD, exist_ok=True)
-    with vlib.Lock():
+    with vlib.Lock("setup"):
         vlib.build_gen_tool()
         rc, out, dt = vlib.sh(["coq_makefile", "-f", "_CoqProject", "-o", "Makefile"], cwd=vlib.COQ, env=dict(os.environ))
         if rc != 0:
